@@ -66,12 +66,13 @@ Definition run (s : sx) : sx :=
       let q := ls_rseq false resol ts (xZ (r 0%nat)) (xZ (r 1%nat)) s0 mel chs in
       out (spb_ok q && canonical_leadsheet (spb_of q) (mp_search_start mp) (mp_gap_bars mp) (mp_pad_end mp) s0 mel chs)
           q (oRes (fun mc => L [oMel (fst mc); oCh (snd mc)]) (ls_from_quantized mp q))
-  | 5 => (* pianoroll: (min_pitch max_pitch split_repeats) (v i pr) *)
+  | 5 => (* pianoroll: (min_pitch max_pitch split_repeats legacy_final_step) (v i pr) *)
       let es := map xZs (xL (a 1%nat)) in
       let minp := xZ (p 0%nat) in let maxp := xZ (p 1%nat) in
+      let legacy := xB (p 3%nat) in
       let pp := mkPrParams s0 minp maxp (xB (p 2%nat)) in
-      let q := pr_rseq resol ts (xZ (r 0%nat)) (xZ (r 1%nat)) (xZ (r 2%nat)) minp s0 es in
-      out (canonical_pianoroll minp maxp s0 es) q
+      let q := pr_rseq legacy resol ts (xZ (r 0%nat)) (xZ (r 1%nat)) (xZ (r 2%nat)) minp s0 es in
+      out (canonical_pianoroll legacy minp maxp s0 es) q
           (oRes (fun x => L [L (map oZs (pe_events x)); I (pe_start x); I (pe_spq x)]) (pr_from_quantized pp q))
   | 6 => (* performance / metric performance: (bins max_shift (instr)?) (default_velocity i pr drum) *)
       let es := map (fun e => (xZ (xnth 0 e), xZ (xnth 1 e))) (xL (a 1%nat)) in
